@@ -6,8 +6,8 @@ import (
 	"sort"
 	"strings"
 
-	"github.com/internetarchive/Zeno/internal/pkg/reactor"
 	"github.com/internetarchive/Zeno/pkg/models"
+	reactor "github.com/internetarchive/Zeno/verifsim/sim/reactorx"
 )
 
 func init() { compSims["reactor"] = simReactor }
@@ -19,6 +19,25 @@ func newSeed(id string) *models.Item {
 	it.SetSource(models.ItemSourceQueue)
 	return it
 }
+
+// reactorEvents tracks which seeds hold a token according to the reactor's hook events.
+type reactorEvents struct{ stored map[string]bool }
+
+func (r *reactorEvents) Name() string { return "reactor-events" }
+func (r *reactorEvents) OnEvent(k *Kernel, ev *Event) {
+	it := firstItem(ev.raw, 0)
+	if it == nil {
+		return
+	}
+	switch ev.Point {
+	case "reactor.insert.stored":
+		r.stored[it.GetID()] = true
+	case "reactor.finish.deleted":
+		delete(r.stored, it.GetID())
+	}
+}
+func (r *reactorEvents) OnQuiescent(k *Kernel) {}
+func (r *reactorEvents) OnEnd(k *Kernel)       {}
 
 func tableIDs() []string {
 	var out []string
@@ -102,11 +121,31 @@ func simReactor(cs *compState) {
 				delivered[id]++
 				check(accepted[id] || true, "output", "unknown-on-output", "%s", id)
 				switch cs.Draw(6) {
-				case 0, 1, 2: // finish (maybe twice)
+				case 0, 1, 2: // finish (maybe twice, maybe from two goroutines at once)
 					before := tableIDs()
+					var dupErr error
+					dupIssued, dupDone := false, true
+					if cs.Chance(1, 4) {
+						dupIssued, dupDone = true, false
+						cs.Go(actor+"-dup", func() {
+							dupErr = reactor.MarkAsFinished(it)
+							dupDone = true
+						})
+					}
 					cs.Enter(actor, "MarkAsFinished("+id+")")
 					err := reactor.MarkAsFinished(it)
 					cs.Leave(actor)
+					for !dupDone {
+						k.Park(actor, "comp.finish.wait-dup", id)
+					}
+					if dupIssued {
+						if err == nil && dupErr == nil {
+							k.Violate("C12", "finish", "concurrent-double-finish-accepted", fmt.Sprintf("two concurrent MarkAsFinished(%s) calls both returned nil: the token was given back twice", id))
+						}
+						if err != nil && dupErr == nil {
+							err = nil // the concurrent duplicate was the successful finish
+						}
+					}
 					if err == nil {
 						finished[id] = true
 					}
@@ -158,15 +197,13 @@ func simReactor(cs *compState) {
 		})
 	}
 	maxInFlight := 0
+	ev := &reactorEvents{stored: map[string]bool{}}
+	k.Oracles = append(k.Oracles, ev)
 	reason := cs.runUntilQuiet(func() {
 		// invariants at every quiescent point
 		tab := tableIDs()
-		inFlight := 0
-		for id := range accepted {
-			if !finished[id] {
-				inFlight++
-			}
-		}
+		// in flight = stored in the table (token held) and not yet removed from it, as reported by the reactor's own hook events
+		inFlight := len(ev.stored)
 		if inFlight > maxInFlight {
 			maxInFlight = inFlight
 		}
@@ -214,13 +251,13 @@ func simReactor(cs *compState) {
 			}
 		}
 	}
-	if !frozenReturned && (reason == "done") {
+	if reason == "done" {
 		for id := range accepted {
 			if delivered[id] < 1+reinserted[id] {
 				k.Violate("C12", "output", "accepted-seed-not-delivered", fmt.Sprintf("%s accepted, fed back %d times, but seen on the output %d times", id, reinserted[id], delivered[id]))
 			}
 		}
-		if tab := tableIDs(); len(tab) != 0 {
+		if tab := tableIDs(); len(tab) != 0 && !frozenReturned {
 			k.Violate("C12", "bounded", "table-not-empty-at-end", fmt.Sprintf("%v", tab))
 		}
 	}
